@@ -285,11 +285,9 @@ func (in *Interp) initExterns() {
 	sx("Sat", func(in *Interp, _ *frame, _ *ssa.Function, a []value) value {
 		c := a[0].(*Term)
 		l := strArg(a[1])
-		in.res.Asserts++
 		r, _ := in.feasible(c)
 		switch r {
 		case Sat:
-			in.res.Discharged++
 			in.res.SolverAsserts++
 			in.res.SatOK = append(in.res.SatOK, l)
 		case Unsat:
